@@ -1,5 +1,5 @@
 (* C07 — search, split and count equal the brute-force definition (statements; see SearchProofs.v). *)
-From BS Require Import Prims BitsCore Search SeqProofs SearchProofs FastPath SearchTop SplitProofs ReplaceProofs.
+From BS Require Import Prims BitsCore Search SeqProofs SearchProofs FastPath SearchTop SplitProofs ReplaceProofs CutProofs.
 From Coq Require Import String.
 Open Scope Z_scope.
 
@@ -73,6 +73,62 @@ Example C07_replace_nonvacuous : ba_replace false (of01 "1110110"%string) (of01 
 Proof. vm_compute. reflexivity. Qed.
 Example C07_overlapping_byte_matches : findall_fast (of01 "000000000000000000000000"%string) (of01 "0000000000000000"%string) 0 24 = Ok [0; 8].
 Proof. vm_compute. reflexivity. Qed.
+(* cut(bits, start, end, count): exactly the successive n-bit chunks of the window, min(count, ceil((end-start)/n)) of them; no empty piece, every piece but
+   the last has n bits; their concatenation is a prefix of the window (all of it without a limiting count); the error clauses *)
+Theorem C07_cut : forall d n start stop count s e, validate_slice d start stop = Ok (s, e) -> 0 < n -> count_ok count ->
+  bs_cut false d n start stop count = Ok (pieces_of (Z.to_nat (cut_count count (e - s) n)) d n s e).
+Proof. exact cut_spec. Qed.
+Theorem C07_cut_piece_lengths : forall d n count s e i, 0 <= s -> s <= e -> e <= zlen d -> 0 < n -> 0 <= i < cut_count count (e - s) n ->
+  zlen (piece d n s e i) = Z.min n (e - s - i * n) /\ 0 < zlen (piece d n s e i) <= n /\ (i + 1 < cut_count count (e - s) n -> zlen (piece d n s e i) = n).
+Proof. exact cut_piece_lengths. Qed.
+Theorem C07_cut_concat : forall d n start stop count s e pieces, validate_slice d start stop = Ok (s, e) -> 0 < n -> count_ok count ->
+  bs_cut false d n start stop count = Ok pieces ->
+  List.concat pieces = sub d s (Z.min (s + cut_count count (e - s) n * n) e) /\
+  (match count with None => True | Some k => cdiv (e - s) n <= k end -> List.concat pieces = sub d s e).
+Proof. exact cut_concat. Qed.
+Theorem C07_cut_errors : forall lsb0 d n start stop count,
+  (n <= 0 -> bs_cut lsb0 d n start stop count = Err ValueError) /\
+  (forall c, count = Some c -> c < 0 -> bs_cut lsb0 d n start stop count = Err ValueError) /\
+  (validate_slice d start stop = Err ValueError -> bs_cut lsb0 d n start stop count = Err ValueError).
+Proof. exact cut_errors. Qed.
+(* startswith / endswith: true exactly when the pattern fits in the window and equals its first / last |p| bits; equivalently the window start
+   (end - |p|) is one of the brute-force occurrences *)
+Theorem C07_startswith : forall d p start stop s e, validate_slice d start stop = Ok (s, e) ->
+  exists b, bs_startswith false d p start stop = Ok b /\ (b = true <-> (s + zlen p <= e /\ sub d s (s + zlen p) = p)).
+Proof. exact startswith_spec. Qed.
+Theorem C07_endswith : forall d p start stop s e, validate_slice d start stop = Ok (s, e) ->
+  exists b, bs_endswith false d p start stop = Ok b /\ (b = true <-> (s + zlen p <= e /\ sub d (e - zlen p) e = p)).
+Proof. exact endswith_spec. Qed.
+Theorem C07_startswith_endswith_are_occurrences : forall d p start stop s e, validate_slice d start stop = Ok (s, e) ->
+  (bs_startswith false d p start stop = Ok true <-> In s (spec_matches d p s e false)) /\
+  (bs_endswith false d p start stop = Ok true <-> In (e - zlen p) (spec_matches d p s e false)).
+Proof. exact startswith_endswith_matches. Qed.
+(* count(v) is the number of positions holding v *)
+Theorem C07_count_is_the_number_of_positions : forall d v,
+  bs_count d v = zlen (filter (fun i => Bool.eqb v (znth false d i)) (zrange 0 (zlen d))) /\
+  bs_count d v = zlen (filter (Bool.eqb v) d) /\ 0 <= bs_count d v <= zlen d.
+Proof. exact count_spec. Qed.
+(* split with a count = the first `count` pieces of the split without one (either mode); and the pieces are EXACTLY the slices between the window start,
+   the greedy chain of non-overlapping (aligned) occurrences - the unique selection in which every occurrence is a cut point or overlaps an earlier one -
+   and the window end *)
+Theorem C07_split_count_is_a_prefix : forall lsb0 d p start stop c ba all,
+  bs_split lsb0 d p start stop None ba = Ok all -> 0 <= c -> bs_split lsb0 d p start stop (Some c) ba = Ok (firstn (Z.to_nat c) all).
+Proof. exact split_count_prefix. Qed.
+Theorem C07_split_exact : forall d p start stop count ba s e, p <> [] -> validate_slice d start stop = Ok (s, e) -> count_ok count ->
+  bs_split false d p start stop count ba = Ok (take_count count (between d s (cuts d p s e ba) e)).
+Proof. exact split_exact. Qed.
+Theorem C07_split_cuts_are_the_greedy_chain : forall d p s e ba, p <> [] ->
+  greedy_selection (zlen p) s e (spec_matches d p s e ba) (cuts d p s e ba) /\
+  (forall cs, greedy_selection (zlen p) s e (spec_matches d p s e ba) cs -> cs = cuts d p s e ba).
+Proof. exact cuts_greedy. Qed.
+Theorem C07_contains_iff : forall d p, p <> [] ->
+  exists b, bs_contains false d p = Ok b /\ (b = true <-> exists q, 0 <= q /\ q + zlen p <= zlen d /\ sub d q (q + zlen p) = p).
+Proof. exact contains_iff. Qed.
+Example C07_split_exact_nonvacuous :
+  let d := [true;true;true;true;false;true;true;true] in
+  spec_matches d [true;true] 0 8 false = [0; 1; 2; 5; 6] /\ cuts d [true;true] 0 8 false = [0; 2; 5] /\
+  bs_split false d [true;true] None None None false = Ok [[]; [true;true]; [true;true;false]; [true;true;true]].
+Proof. exact split_exact_example. Qed.
 Print Assumptions C07_general_path_is_brute_force.
 Print Assumptions C07_find_is_lowest.
 Print Assumptions C07_empty_pattern_rejected.
@@ -88,3 +144,15 @@ Print Assumptions C07_split_partitions_the_window.
 Print Assumptions C07_split_pieces_begin_with_the_delimiter.
 Print Assumptions C07_replace.
 Print Assumptions C07_replace_length_and_frame.
+Print Assumptions C07_cut.
+Print Assumptions C07_cut_piece_lengths.
+Print Assumptions C07_cut_concat.
+Print Assumptions C07_cut_errors.
+Print Assumptions C07_startswith.
+Print Assumptions C07_endswith.
+Print Assumptions C07_startswith_endswith_are_occurrences.
+Print Assumptions C07_count_is_the_number_of_positions.
+Print Assumptions C07_split_count_is_a_prefix.
+Print Assumptions C07_split_exact.
+Print Assumptions C07_split_cuts_are_the_greedy_chain.
+Print Assumptions C07_contains_iff.
